@@ -25,6 +25,7 @@ func main() {
 		lib.Fatal(err)
 	}
 	defer drv.Close()
+	ropts := startRopts(f)   // probes that only wait
 	sets := startSetCases(f) // mostly waiting (the 5 s send timeout): runs next to everything below
 	latMon := newLatencyMonitor(res)
 	latDone := make(chan map[string]int64, 1)
@@ -37,9 +38,26 @@ func main() {
 		run()
 		res.Extra["wall_ms/"+name] = time.Since(t0).Milliseconds()
 	}
-	timed("mergeChanges-table", func() { runMergeTable(f, res, drv) })
-	timed("mergeExcess-machine", func() { runMachine(f, res, drv) })
-	timed("DropExcess-machine", func() { runDrop(f, res, drv) })
+	// the machine-level families touch neither the bus nor the hooks: they run next to the resource-level ones,
+	// with a driver process and a result of their own (merged in below)
+	resM := lib.NewResult("C09", f)
+	machDone := make(chan struct{})
+	go func() {
+		defer close(machDone)
+		drvM, err := lib.StartDriver(f.Driver)
+		if err != nil {
+			lib.Fatal(err)
+		}
+		defer drvM.Close()
+		timedM := func(name string, run func()) {
+			t0 := time.Now()
+			run()
+			resM.Extra["wall_ms/"+name] = time.Since(t0).Milliseconds()
+		}
+		timedM("mergeChanges-table", func() { runMergeTable(f, resM, drvM) })
+		timedM("mergeExcess-machine", func() { runMachine(f, resM, drvM) })
+		timedM("DropExcess-machine", func() { runDrop(f, resM, drvM) })
+	}()
 	timed("bus-send-deadline", func() { runSend(f, res, drv) })
 	timed("value-pull-pipeline", func() { runValuePipeline(f, res, drv) })
 	timed("collection-subscribers", func() { runCollectionPipelines(f, res, drv) })
@@ -49,12 +67,20 @@ func main() {
 	timed("two-writers", func() { runTwoWriters(f, res) })
 	timed("slow-reader (rest of it)", func() { <-slowDone })
 	timed("held-up-delete", func() { runHeldUpDelete(f, res, drv) })
+	timed("overtaken-update", func() { runOvertaken(f, res, drv) })
 	timed("writers-and-subscribers (rest of it)", func() {
 		for k, v := range <-latDone {
 			res.Extra[k] = v
 		}
 	})
+	timed("machine-level families (rest of them)", func() { <-machDone })
+	res.Ties = append(resM.Ties, res.Ties...)
+	res.Monitors = append(res.Monitors, resM.Monitors...)
+	for k, v := range resM.Extra {
+		res.Extra[k] = v
+	}
 	sets.finish(res, drv)
+	timed("read-options-path (rest of it)", func() { ropts.finish(res, drv) })
 	if err := res.Write(f.Out); err != nil {
 		lib.Fatal(err)
 	}
@@ -181,6 +207,22 @@ func replay(f lib.Flags) int {
 		verifhook.Set(xrunHook)
 		obs, _ := c.runConfirmed("")
 		fmt.Printf("replay busrun %s -> %s\n", c.key(), obs.answer())
+		c.monitor(m, obs)
+	case "urun":
+		var c urunCase
+		if err := json.Unmarshal(raw, &c); err != nil {
+			lib.Fatal(err)
+		}
+		obs := c.runCode()
+		fmt.Printf("replay urun %s -> %s (streams %v)\n", c.key(), obs.answer(), obs.Streams)
+		c.monitor(m, obs)
+	case "ropts":
+		var c roptsCase
+		if err := json.Unmarshal(raw, &c); err != nil {
+			lib.Fatal(err)
+		}
+		obs := c.runCode()
+		fmt.Printf("replay ropts %s -> %s\n", c.key(), obs.answer())
 		c.monitor(m, obs)
 	case "latency":
 		var c latencyCase
